@@ -88,6 +88,22 @@ chk("C18", ALG + " The normal vector is fully symbolic (all non-zero vectors, bo
     TRUST + " Window omitted: concrete position layouts (symbolic radius under a square root is beyond nlsat in minutes).",
     "symbolic execution of get_direction/VectorBasis; SMT QF_NRA identities", "DESIGN.md section 5 C18")
 
+MAPTXT = ("Compositional bounded symbolic model checking of the real map(): (A) osyris.map(plot=False) runs on symbolic cells/origin/depth with the "
+          "numba kernel replaced by a recorder: pre-selection soundness is proved for an ARBITRARY point of the window/slab (QF_NRA), the kernel's "
+          "arguments (cells in both bases, half sizes, values, grid of sample points origin + x_i u + y_j v + z_k n, edges, spacings) and the assembly "
+          "of the result (centres in the unit of dx, depth reduction, sum scaling/unit, mask, vector layers) are proved term by term; (B) the kernel's "
+          "Python source runs on symbolic cells: every sample shows the cell containing it, NaN iff strictly inside none; (C) two-iteration "
+          "interference analysis of the prange loop; (D) concrete AMR layouts end to end. Replays are END-TO-END on the un-instrumented map with the "
+          "compiled kernel against the point-location oracle.")
+chk("C03", MAPTXT, TRUST + " Window size concrete per configuration; magnitudes within 1e6 window sizes; cells do not overlap; faces free; numba "
+    "executes the Python semantics of the loop body per iteration.",
+    "symbolic execution of map()/evaluate_on_grid.py_func with a recorder cut; SMT (QF_NRA selection, LRA+ToInt kernel); AST-derived interference analysis",
+    "DESIGN.md section 5 C03")
+chk("C11", MAPTXT + " Thick maps: symbolic dz (one pixel .. 3 windows), number/position of depth samples (rounding condition proved for the symbolic "
+    "dz), 8 reductions, resolution dict with/without z.",
+    TRUST + " As C03; dz in two ranges (<= window, >= window) so that max(dx,dy,dz) is resolved.",
+    "symbolic execution of map(dz=...)/evaluate_on_grid.py_func with a recorder cut; SMT (QF_NRA, LRA+ToInt)", "DESIGN.md section 5 C11")
+
 for pid in ["C01", "C03", "C04", "C05", "C06", "C07", "C08", "C09", "C10", "C11", "C12", "C13", "C14", "C15", "C16",
             "C17", "C18", "C19", "C20"]:
     NA.setdefault(pid, "check under construction in this round (solver-based harness designed in DESIGN.md section 5, not yet registered)")
